@@ -1,36 +1,36 @@
-SPECIFICATION Spec
+SPECIFICATION SimSpec
 CONSTANTS
   NVB = 2
   InitLog <- EmptyLog
-  MaxSeq = 1
+  MaxSeq = 2
   Keys = {"user"}
   Kinds = {"mut"}
   OldEvents = FALSE
   BadEvents = FALSE
   FoUuid <- Fo10
   Savers = {"p"}
-  MaxSaves = 0
+  MaxSaves = 1
   MaxCrash = 0
   MaxAcks = 1
   MaxGen = 4
-  MaxNotify = 1
-  MaxEnds = 2
+  MaxNotify = 3
+  MaxEnds = 0
   MaxFail = 0
   AutoReset = "earliest"
   Finite = FALSE
-  AutoCkpt = TRUE
+  AutoCkpt = FALSE
   Infos <- Infos2
   Info0 <- Info11
   EndCauses = {"socket", "statechanged", "ok"}
   Hold = FALSE
-  AllowClose = TRUE
+  AllowClose = FALSE
   Rollbacks = FALSE
   FailSaves = FALSE
   Focus = FALSE
-  Record = FALSE
+  Record = TRUE
   ReadOnly = FALSE
   AckSplit = FALSE
-  HoldCb = FALSE
+  HoldCb = TRUE
   RM = FALSE
   Slots = 1
   RmUuids = {1, 2}
@@ -38,9 +38,9 @@ CONSTANTS
   Scrapes = FALSE
   HookScrapes = FALSE
   Marking = FALSE
-  WindAt = 0
+  WindAt = 36
   Gaps = {}
   Bugs = {}
-VIEW view
-INVARIANTS C07 C16 C01 C02 C03 C04 C05 C06 C08 C11 C12 C13 C14 C15 StoreAgrees ReopenArmed
+  D = 50
+INVARIANTS DumpSched
 CHECK_DEADLOCK FALSE
